@@ -591,3 +591,52 @@ Proof.
   - apply Z.eqb_eq in E1. apply (Hs t Ht) in E1. apply Z.eqb_neq in E2. congruence.
   - apply Z.eqb_eq in E2. apply (Hs t Ht) in E2. apply Z.eqb_neq in E1. congruence.
 Qed.
+
+(* ---- clone queries --------------------------------------------------------- *)
+Lemma Permutation_filter' {X} (p : X -> bool) (a b : list X) :
+  Permutation a b -> Permutation (filter p a) (filter p b).
+Proof.
+  induction 1 as [|x a b H IH|x y a|a b c H1 IH1 H2 IH2]; cbn [filter].
+  - constructor.
+  - destruct (p x); [constructor|]; exact IH.
+  - destruct (p x), (p y); try apply Permutation_refl. apply perm_swap.
+  - eapply Permutation_trans; eassumption.
+Qed.
+
+Lemma group_of_node st n :
+  state_wf st -> In n (pre_f (t_forest st)) ->
+  exists g, idx_get (rdid n) (t_idx st) = Some g /\ g = group (t_idx st) (rdid n) /\ In (rid n) g.
+Proof.
+  intros W Hn.
+  assert (Hin : In (rid n) (group (t_idx st) (rdid n))).
+  { apply (wf_group st W). unfold all_by_did. apply in_map. apply filter_In. split; [exact Hn|].
+    unfold did_is. apply did_eqb_refl. }
+  unfold group in *. destruct (idx_get (rdid n) (t_idx st)) as [g|]; [|destruct Hin].
+  exists g. auto.
+Qed.
+
+Lemma node_is_clone_spec st n :
+  state_wf st -> In n (pre_f (t_forest st)) ->
+  node_is_clone st n = Ok (Nat.ltb 1 (length (all_by_did (t_forest st) (rdid n)))).
+Proof.
+  intros W Hn. destruct (group_of_node st n W Hn) as (g & E & Eg & _).
+  unfold node_is_clone. rewrite E, Eg, (Permutation_length (wf_perm st (rdid n) W)). reflexivity.
+Qed.
+
+Lemma node_get_clones_spec st n add_self :
+  state_wf st -> In n (pre_f (t_forest st)) ->
+  exists r, node_get_clones st n add_self = Ok r /\
+    Permutation r (if add_self then all_by_did (t_forest st) (rdid n)
+                   else filter (fun x => negb (Nat.eqb x (rid n))) (all_by_did (t_forest st) (rdid n))) /\
+    NoDup r /\ (add_self = false -> ~ In (rid n) r) /\ (add_self = true -> In (rid n) r).
+Proof.
+  intros W Hn. destruct (group_of_node st n W Hn) as (g & E & Eg & Hin).
+  pose proof (wf_perm st (rdid n) W) as P. rewrite <- Eg in P.
+  destruct (wf_group st W (rdid n)) as [Hnd _]. rewrite <- Eg in Hnd.
+  unfold node_get_clones. rewrite E. eexists. split; [reflexivity|]. destruct add_self.
+  - refine (conj P (conj Hnd (conj _ _))); [discriminate|intros _; exact Hin].
+  - refine (conj (Permutation_filter' _ _ _ P) (conj _ (conj _ _))).
+    + apply NoDup_filter. exact Hnd.
+    + intros _ Hx. apply filter_In in Hx as [_ Hb]. rewrite Nat.eqb_refl in Hb. discriminate.
+    + discriminate.
+Qed.
